@@ -118,6 +118,51 @@ def run_files(case, ctx):
         ctx.nontrivial([size_class(n), case["algos"], case["kind"]])
 
 
+def strategy_threads(tier):
+    return st.fixed_dictionaries({
+        "files": st.lists(st.fixed_dictionaries({
+            "size": st.sampled_from([BUF + 1, 2 * BUF + 7, 3 * BUF, 5 * BUF - 1,
+                                     700]),
+            "kind": st.sampled_from(["counter", "prng"]),
+            "pseed": st.integers(0, 2**32),
+        }), min_size=2, max_size=5),
+        "algos": st.lists(st.sampled_from(dsops.HASHES), min_size=1,
+                          max_size=4),
+        "rounds": st.integers(2, 6),
+    })
+
+
+def run_threads(case, ctx):
+    """hash_checksums called from several threads of one process at the same
+    time (e.g. check() of two datasets): every result must still be the
+    digest of its own file."""
+    from concurrent.futures import ThreadPoolExecutor
+    from sedpack.io.utils import hash_checksums
+    d = env.scratch_dir("c16t")
+    try:
+        blobs = []
+        for i, f in enumerate(case["files"]):
+            data = make_content(f["kind"], f["size"], f["pseed"])[:f["size"]]
+            p = d / f"blob{i}.bin"
+            p.write_bytes(data)
+            blobs.append((p, data))
+        algos = tuple(case["algos"])
+        with ThreadPoolExecutor(max_workers=len(blobs)) as ex:
+            for _ in range(case["rounds"]):
+                futs = [ex.submit(hash_checksums, p, algos) for p, _ in blobs]
+                for (p, data), fut in zip(blobs, futs):
+                    check_tuple(ctx, f"hash_checksums({p.name}, "
+                                f"size={len(data)}) from "
+                                f"{len(blobs)} concurrent threads",
+                                case["algos"], fut.result(), data)
+                    ctx.evaluated()
+        ctx.label("threads")
+        ctx.nontrivial(["threads", [f["size"] for f in case["files"]],
+                        case["algos"]])
+    finally:
+        dsops.rmtree(d)
+
+
 def enumerate_grid(tier):
     if tier != "thorough":
         sizes = [0, 1, BUF - 1, BUF, BUF + 1, 2 * BUF, 2 * BUF + 1]
@@ -231,6 +276,14 @@ STAGES = [
           examples={
               "quick": 1500,
               "thorough": 60000
+          },
+          setup=setup),
+    Stage(name="threads",
+          run=run_threads,
+          strategy=strategy_threads,
+          examples={
+              "quick": 200,
+              "thorough": 3000
           },
           setup=setup),
     Stage(name="grid",
